@@ -26,6 +26,17 @@ def run(ctx):
     cases = [(k, d.to_bytes(32, "big")) for k in keys for d in digs]
     for _ in range(300 if not thorough else 3000):
         cases.append((rng.choice(keys + [rng.randrange(1, N)]), rbytes(rng, 32)))
+    found, tries = 0, 0
+    while found < 3 and tries < (500 if not thorough else 4000):
+        tries += 1
+        k, h = rng.choice(keys), rbytes(rng, 32)
+        if int.from_bytes(h, "big") >= N:
+            continue
+        rr, ss, _ = pyref.ecdsa_sign_rfc6979(k, h)
+        if rr < (1 << 248) or ss < (1 << 248):
+            cases.append((k, h))
+            found += 1
+    ctx.note("signatures with a leading zero byte in r or s included: %d (from %d scanned)" % (found, tries))
     impl = ctx.harness([("sign", k.to_bytes(32, "big"), h) for k, h in cases])
     mod = ctx.model(["c05_sign %s %s" % (ni(k), pb(h)) for k, h in cases], label="C05", timeout=1500)
     par = {0: 0, 1: 0}
